@@ -122,8 +122,27 @@ def make_atom(rec):
     return a
 
 
+def _truncated(field, want):
+    """What the documented fixed-width truncation makes of a value."""
+    try:
+        if field == "serial":
+            return int(str(want)[:5])
+        if field == "res_seq":
+            return int(str(want)[:4])
+        if field in ("x", "y", "z"):
+            return float(f"{want:8.3f}"[:8])
+    except ValueError:
+        return None
+    return None
+
+
 def compare(rec, got, keep_chain, layout, viol, tag):
-    """First differing field -> signature."""
+    """Every differing field -> one signature (field, magnitude class, kind
+    of difference).  A value that is exactly the field-width truncation of
+    the model value is told apart from any other corruption, so that the
+    known truncation classes do not hide a different defect on the same
+    inputs."""
+    ok_all = True
     for f in ORDER:
         want = rec[f]
         if f == "chain":
@@ -133,21 +152,28 @@ def compare(rec, got, keep_chain, layout, viol, tag):
                 viol.append((f"C08/{layout}/{tag}/chain/{value_class(f, rec[f])}"
                              f"/keep_chain={keep_chain}",
                              {"want": want, "got": g, "model": rec}))
-                return False
+                ok_all = False
             continue
         g = got.get(f)
-        ok = True
         if f in ("x", "y", "z"):
             ok = g is not None and abs(g - want) <= 0.0005 + 1e-9
         elif f in ("charge", "radius"):
             ok = g is not None and abs(g - want) <= 0.00005 + 1e-9
         else:
             ok = g == want
-        if not ok:
-            viol.append((f"C08/{layout}/{tag}/{f}/{value_class(f, rec[f])}",
-                         {"want": want, "got": g, "model": rec}))
-            return False
-    return True
+        if ok:
+            continue
+        ok_all = False
+        cls = value_class(f, rec[f])
+        t = _truncated(f, want)
+        overflow = cls.startswith((">=", "<="))
+        if overflow and t is not None and g is not None and (
+                g == t or (isinstance(t, float) and abs(g - t) < 1e-9)):
+            sig = f"C08/{layout}/{tag}/{f}/{cls}"  # documented truncation
+        else:
+            sig = f"C08/{layout}/{tag}/{f}/{cls}/corrupted"
+        viol.append((sig, {"want": want, "got": g, "model": rec}))
+    return ok_all
 
 
 def check_line(rec, line, whitespace, keep_chain, viol, events):
